@@ -97,7 +97,7 @@ func C11(p *load.Prog, r *report.Report) {
 	m.stateGuard(r, "C11", true, false)
 	roots := sqrtMinusZ()
 	// (b) sqrt_ratio
-	if fn := p.Method(p.Field, "Element", "SqrtRatio"); fn != nil {
+	if fn := anchorMethod(p, p.Field, "Element", "SqrtRatio"); fn != nil {
 		u, v := absint.FieldSym(FP, "u"), absint.FieldSym(FP, "v")
 		explore(p, absint.Config{}, fn, func(it *absint.Interp) []absint.Value {
 			return []absint.Value{ptr(m.newFE(it, "out", pInt(FP, 0))), ptr(m.newFE(it, "u", u)), ptr(m.newFE(it, "v", v))}
